@@ -700,23 +700,26 @@ class BatcherWorld:
         tarr = {C.key: C.t_call for C in self.arrivals}
         mutated = len(self.size_limits) > 1
 
-        def limits_at(t):
-            # the limit(s) the collector can have read at instant t: the one in force just before t and the one in force at t
-            # (a mutation at exactly t is a tie with the arrival; both orders are legal)
+        def limits_at(t, t2=None):
+            # the limit(s) the collector can have read between instants t and t2 (default: at t): the one in force just before
+            # t (a mutation at exactly t is a tie with the arrival; both orders are legal) and every one in force up to t2
+            t2 = t if t2 is None else t2
             before = [n for tm, n in self.size_limits if tm < t]
-            at = [n for tm, n in self.size_limits if tm <= t]
-            return {before[-1] if before else self.size_limits[0][1], at[-1]}
+            out = {before[-1] if before else self.size_limits[0][1]}
+            out.update(n for tm, n in self.size_limits if t <= tm <= t2)
+            return out
         if mutated:
-            # The limit is public and mutable: the collector consults it each time an item joins.  Item j (j >= 2) joined a
-            # batch that held j-1 items since item j-1 arrived, so j-1 must have been below the limit read at that instant.
+            # The limit is public and mutable: the collector consults it as items join.  Item j (j >= 2) joined a batch that
+            # held j-1 items from the arrival of item j-1 on, so j-1 must have been below a limit in force at some instant
+            # between that arrival and its own (whether the implementation looks after adding j-1 or before adding j).
             for B in self.batches:
                 ks = [k for k, _ in B.items]
                 for j in range(2, len(ks) + 1):
-                    lim = max(limits_at(tarr[ks[j - 2]]))
+                    lim = max(limits_at(tarr[ks[j - 2]], tarr[ks[j - 1]]))
                     if j - 1 >= lim:
                         self.viol('C10', 'batcher.oversize', 'batch grew past the max_batch_size in force when the item joined',
                                   f'batch {B.b} {ks}: item #{j} joined although the batch already held {j - 1} item(s) when '
-                                  f'{ks[j - 2]} arrived at t={tarr[ks[j - 2]]} and the limit then was {lim} '
+                                  f'{ks[j - 2]} arrived at t={tarr[ks[j - 2]]} and the limit from then until its own arrival was at most {lim} '
                                   f'(limits over time {self.size_limits})', mutated=True)
                         break
         # sharing: consecutive arrivals < bt apart share a batch unless it is full
@@ -725,7 +728,7 @@ class BatcherWorld:
             gap = b.t_call - a.t_call
             if gap < bt and where[a.key] is not where[b.key]:
                 B = where[a.key]
-                lim = min(limits_at(a.t_call)) if mutated else p['max_batch_size']
+                lim = min(limits_at(a.t_call, b.t_call)) if mutated else p['max_batch_size']
                 if len(B.items) < lim:
                     self.viol('C10', 'batcher.split_burst', 'calls less than batch_timeout apart did not share a batch',
                               f'{a.key}@{a.t_call} and {b.key}@{b.t_call} (gap {gap} < {bt}); batch {B.b} has '
